@@ -6,9 +6,11 @@ M = [
  ("c01-context-key-slice", "C01", "src/store/mod.rs", "let frame_id_bytes = &key[16..];", "let frame_id_bytes = &key[..16];"),
  ("c01-included-bound", "C01", "src/store/mod.rs", "                    Bound::Excluded(v)\n", "                    Bound::Included(v)\n"),
  ("c07-no-reload", "C07", "src/store/mod.rs", "                store.contexts.write().unwrap().insert(frame.id);\n            }\n        }\n\n        // Spawn gc worker thread", "            }\n        }\n\n        // Spawn gc worker thread"),
- ("c07-remove-keeps-registry", "C07", "src/store/mod.rs", "            self.contexts.write().unwrap().remove(&frame.id);\n", ""),
+ ("c07-remove-keeps-registry", "C07", "src/store/mod.rs", "self.verif.point(\"ctx.unregister\", Some(&frame));\n            self.contexts.write().unwrap().remove(&frame.id);\n", "self.verif.point(\"ctx.unregister\", Some(&frame));\n"),
+ ("c07-import-over-registration-keeps-registry", "C07", "src/store/mod.rs", "        } else if replaced.is_some() {\n            self.contexts.write().unwrap().remove(&frame.id);\n", "        } else if replaced.is_some() {\n"),
+ ("c05-import-over-keeps-old-index", "C05", "src/store/mod.rs", "            batch.remove(&self.idx_topic, idx_topic_key_from_frame(old)?);\n", ""),
  ("c08-expiry-in-seconds", "C08", "src/store/mod.rs", "created_ms.saturating_add(ttl.as_millis() as u64)", "created_ms.saturating_add(ttl.as_secs())"),
- ("c09-ephemeral-stored", "C09", "src/store/mod.rs", "        if frame.ttl != Some(TTL::Ephemeral) {\n            self.insert_frame(&frame)?;", "        {\n            self.insert_frame(&frame)?;"),
+ ("c09-ephemeral-stored", "C09", "src/store/mod.rs", "        if frame.ttl != Some(TTL::Ephemeral) {\n            // the id was assigned above", "        {\n            // the id was assigned above"),
  ("c09-skip-keep-plus-one", "C09", "src/store/mod.rs", ".skip(keep as usize)", ".skip(keep as usize + 1)"),
  ("c03-scan-not-bounded-by-handoff", "C03", "src/store/mod.rs", "                        if frame.id > handoff_id {\n                            break;\n                        }\n", ""),
  ("c03-no-live-context-filter", "C06", "src/store/mod.rs", "                            if frame.context_id != context_id {\n                                continue;\n                            }\n", ""),
